@@ -1,5 +1,6 @@
 """C08 — user metadata crosses the wire intact; protocol headers cannot be forged (structural clauses)."""
 import re
+from collections import defaultdict
 from common import *
 import mirlib
 
@@ -19,7 +20,7 @@ def sanitiser_facts(tonic):
     """what into_sanitized_headers does, independent of its spelling (for-loop, or iter().for_each(|n| ..remove(n))):
     dict(removes=[(body, bb, call)], recv_ok, key_ok, all_visited, returns_own)"""
     sh = tonic.body('metadata::map::MetadataMap::into_sanitized_headers')
-    fam = [sh] + [c for c in tonic.bodies if c.kind == 'closure' and c.path.startswith(sh.path + '::')]
+    fam = [c for c in family(tonic, sh) if c is sh or c.kind == 'closure']
     removes = [(fb, bb, t) for fb in fam for bb, t in fb.calls(pat='HeaderMap', name='remove')]
     out = dict(body=sh, removes=removes, recv_ok=False, key_ok=False, all_visited=False, returns_own=False, key='')
     from_table = lambda t_: mentions_constdef(t_, 'GRPC_RESERVED_HEADERS') or any('GRPC_RESERVED_HEADERS' in show(x) for x in find_terms(t_, lambda x: x and x[0] in ('constdef', 'promoted')))
@@ -135,30 +136,34 @@ def run(R):
         n_it = 0
         for itname in ('Iter', 'IterMut', 'Keys', 'Values', 'ValuesMut'):
             nb = tonic.body(re.compile(r"<metadata::map::%s<'a> as std::iter::Iterator>::next$" % itname))
-            cl = [c for c in tonic.children(nb) if c.kind == 'closure']
-            if len(cl) != 1:
-                raise CheckError('UNRECOGNISED: %s::next has %d closures' % (itname, len(cl)))
-            c = cl[0]
-            R.saw(nb, c)
-            vk = c.calls(name='is_valid_key')
-            R.check(len(vk) == 1 and 'Ascii' in (vk[0][1].get('self_ty') or vk[0][1].get('fn') or ''), 'C08.R3', 'iter:%s:test' % itname, site(c), 'categorises with %s' % (vk[0][1].get('self_ty') if vk else None))
-            if not vk:
-                continue
-            n_it += 1
-            sw = mirlib.follow_to_switch(c, vk[0][1]['t'])
-            edges = c.switch_edges(sw)
-            variants = {}
-            for tgt, vals in edges.items():
-                truth = (vals == ['else'] or (0 not in vals and 'else' not in vals))
-                region = c.reachable(tgt, removed={sw}) - set().union(*[c.reachable(t2, removed={sw}) for t2 in edges if t2 != tgt])
-                for bb in sorted(region):
-                    for w in block_writes(c, bb, 0):
-                        if w[0] == 'variant':
-                            variants[truth] = w[2]
-            R.eq(variants.get(True), 'Ascii', 'C08.R3', 'iter:%s:true->Ascii' % itname, site(c), 'variant built when Ascii::is_valid_key is true')
-            R.eq(variants.get(False), 'Binary', 'C08.R3', 'iter:%s:false->Binary' % itname, site(c), 'variant built when it is false')
-            key = c.origin(vk[0][1]['args'][0])
-            R.check(mentions_call(key, name='as_str'), 'C08.R3', 'iter:%s:tests-the-name' % itname, site(c), 'tested string = %s' % show(key)[:80])
+            # by feasible path through next() (or the closure it maps with): the variant built at the end of the path against the
+            # outcome of the Ascii::is_valid_key(name) test passed on it — however the test result is carried there
+            fam_ = [nb] + [c for c in tonic.children(nb) if c.kind == 'closure']
+            R.saw(*fam_)
+            variants = defaultdict(set)
+            tested = []
+            ntest = 0
+            for c in fam_:
+                vk = [(bb_, t_) for bb_, t_ in c.calls(name='is_valid_key')]
+                ntest += len(vk)
+                for bb_, t_ in vk:
+                    R.check('Ascii' in (t_.get('self_ty') or t_.get('fn') or ''), 'C08.R3', 'iter:%s:test' % itname, site(c, bb_), 'categorises with %s' % (t_.get('self_ty') or t_.get('fn')))
+                    tested.append(c.origin(t_['args'][0]))
+                for cons, path in mirlib.path_rows(c, stop=set(writers_of(c, 0))):
+                    val = mirlib.simplify(c.ret_on_path(path))
+                    built = find_terms(val, lambda x: isinstance(x, tuple) and x and x[0] == 'agg' and isinstance(x[1], dict) and x[1].get('variant') in ('Ascii', 'Binary') and 'metadata::map::' in (x[1].get('adt') or ''))
+                    if not built:
+                        continue
+                    truth = [c.edge_truth(bb_, vals) for bb_, tm, vals in c.path_tests(path) if is_call(strip_refs(tm), name='is_valid_key')]
+                    for x in built:
+                        variants[x[1]['variant']].add(truth[0] if len(truth) == 1 else 'untested' if not truth else 'ambiguous')
+            R.check(ntest == 1, 'C08.R3', 'iter:%s:test' % itname, site(nb), 'is_valid_key tests in %s::next: %d' % (itname, ntest))
+            if ntest:
+                n_it += 1
+            R.eq(sorted(map(str, variants.get('Ascii', ()))), ['True'], 'C08.R3', 'iter:%s:true->Ascii' % itname, site(nb), 'outcome of Ascii::is_valid_key on the paths that build the Ascii variant')
+            R.eq(sorted(map(str, variants.get('Binary', ()))), ['False'], 'C08.R3', 'iter:%s:false->Binary' % itname, site(nb), 'outcome of Ascii::is_valid_key on the paths that build the Binary variant')
+            for key in tested:
+                R.check(mentions_call(key, name='as_str'), 'C08.R3', 'iter:%s:tests-the-name' % itname, site(nb), 'tested string = %s' % show(key)[:80])
         R.floor('C08.R3', 'iterators', n_it, 5)
         n_acc = 0
         for ty in ('&str', 'std::string::String', '&std::string::String'):
@@ -185,8 +190,8 @@ def run(R):
         bk = tonic.body(re.compile(r'<metadata::encoding::Binary as metadata::encoding::ValueEncoding>::is_valid_key$'))
         R.saw(bk)
         # the "-bin" suffix test; map lookups by &str are case-insensitive (http::HeaderMap normalises), so the test must be too
-        sfx = [const_val(bk.origin(a)) for bb, t in bk.calls() for a in t['args']]
-        sfx += [v for bb in bk.live_blocks() for st in bk.blocks[bb]['stmts'] if 'rv' in st for v in [const_val(bk._origin_def(('stmt', bb, 0, st['rv']), 0, set()))]]
+        sfx = [const_value(tonic, bk.origin(a)) for bb, t in bk.calls() for a in t['args']]
+        sfx += [v for bb in bk.live_blocks() for st in bk.blocks[bb]['stmts'] if 'rv' in st for v in [const_value(tonic, bk._origin_def(('stmt', bb, 0, st['rv']), 0, set()))]]
         has_sfx = any(x in ('-bin', b'-bin') for x in sfx)
         R.check(has_sfx, 'C08.R3', 'binary=suffix(-bin)', site(bk), 'Binary::is_valid_key tests the "-bin" suffix: constants seen %r' % [x for x in sfx if isinstance(x, (str, bytes))])
         ci = bool(bk.calls(name='eq_ignore_ascii_case')) or (bool(bk.calls(name='to_ascii_lowercase') or bk.calls(name='to_lowercase')) and bool(bk.calls(name='ends_with')))
